@@ -46,9 +46,12 @@ def run(run: Run):
         rp = {"kind": "alloc", "case": line.strip(), "meaning": "bits m T seeded rng-seed (stdin line of bpv-alloc)"}
         if "prove_fails" in rec and rec.get("prove_fails_is_err") is not True:
             run.violation("generator: the prove with value < promise did not fail", rp)
+        for nm in ("verify_fails_after_recovery_a", "verify_fails_after_recovery_b"):
+            if nm in rec and rec.get(nm + "_is_err") is not True:
+                run.violation("generator: the recovering verification of a batch with an invalid member did not fail", rp)
         if "prove_refused" in rec and rec.get("prove_refused_is_err") is not True:
             run.violation("generator: the prove with a value beyond the bit length was not refused", rp)
-        for ph in PHASES + [x for x in ("prove_fails", "prove_refused", "drop_statements_on_heap_cap1", "drop_statements_on_heap_cap2", "drop_statements_on_heap_cap4", "witness_clone_from", "drop_after_clone_from") if x in rec]:
+        for ph in PHASES + [x for x in ("prove_fails", "prove_refused", "drop_statements_on_heap_cap1", "drop_statements_on_heap_cap2", "drop_statements_on_heap_cap4", "witness_clone_from", "drop_after_clone_from", "verify_fails_after_recovery_a", "verify_fails_after_recovery_b") if x in rec]:
             r = rec[ph]
             dirty = r["dirty"]
             run.count(["c20", b, m, T, seeded, ph, len(dirty) > 0], {"bits": b, "m": m, "T": T, "seeded": seeded, "phase": ph, "freed_blocks": r["freed_blocks"], "dirty": len(dirty)})
@@ -68,7 +71,7 @@ def run(run: Run):
             run.violation("generator: recovery did not return a mask", rp)
     return run.finish(
         "proof",
-        "prove, recovering verify, drop of the recovered masks and drops of witness / opening / mask / statement, of a witness refreshed in place from a larger one (clone_from), of statements living on the heap (Vec / Box) over parameter objects of capacity 1, 2 and 4 (also when built from vectors whose spare capacity still holds secrets after truncate / drain) a prove that fails half-way through an aggregated witness and a prove refused for a value beyond the bit length (value searched as bytes and as decimal / hex text), for a spread of (bits, aggregation, extension degree, seeded) configurations in a "
+        "prove, recovering verify, a recovering verify that fails after the masks were recovered (invalid second member), drop of the recovered masks and drops of witness / opening / mask / statement, of a witness refreshed in place from a larger one (clone_from), of statements living on the heap (Vec / Box) over parameter objects of capacity 1, 2 and 4 (also when built from vectors whose spare capacity still holds secrets after truncate / drain) a prove that fails half-way through an aggregated witness and a prove refused for a value beyond the bit length (value searched as bytes and as decimal / hex text), for a spread of (bits, aggregation, extension degree, seeded) configurations in a "
         "binary built at opt-level 0 with an interposing allocator; every freed block is scanned for the seed, every blinding factor / mask and (at 64 bits) every value; the multiset of dirty frees "
         "must equal the model's (empty); distinct by (bits, m, T, seeded, phase, dirty?)",
         ["derived temporaries (bit vectors, nonces) are covered by the discipline model only; a_lo_offset / a_hi_offset are plain in the source and not claimed (DESIGN.md section 5/C20)"],
